@@ -192,6 +192,18 @@ def check_text(text, words, cells, max_pc, after_rejected=False, size=4096):
 DECLS = [(), ((7,),), ((7, 0x00F, 3),), ((1, 2), (0xFFFF,)), ((3,), (4, 5, 6)), ((4, 0, 6),), ((0, 0, 1), (0,))]
 
 
+DECOR = [" # plain comment", " ## two hashes", "  # see issue #12 # and more", "\t# tab before", " #", "   ", "", " # LDA 5", " #: label-like:"]
+
+
+def decorate(text, k):
+    out = ["# header, item #1", ""]
+    for i, line in enumerate(text.split("\n")[:-1]):
+        out.append(("\t" if (i + k) % 4 == 0 else "") + line + DECOR[(i + k) % len(DECOR)])
+        if (i + k) % 5 == 0:
+            out.append("   # a line of its own ## with hashes")
+    return "\n".join(out) + "\n"
+
+
 def asm_shard(shard):
     length, first, framing_set = shard[:3]
     size = shard[3] if len(shard) > 3 else 4096
@@ -227,6 +239,10 @@ def asm_shard(shard):
                         after = (p.evaluations % 2 == 0)
                         if after:
                             p.counters["loaded-after-a-rejected-program"] += 1
+                        if p.evaluations % 3 == 1:
+                            # the same program with comments (also ones that contain further '#'), blank lines, tabs and trailing blanks
+                            text = decorate(text, p.evaluations)
+                            p.counters["decorated-with-comments"] += 1
                         d = check_text(text, words, cells, max_pc, after, size)
                         if d:
                             p.violation(dict(oracle="toy-assembler", field="layout"), dict(kind="toy-text", text=text, words=words, cells={str(k): v for k, v in cells.items()}, max_pc=max_pc, after=after, size=size),
@@ -404,4 +420,4 @@ def run(ctx):
     ctx.space("help-page-examples", part, t0)
     from vf.checks import toyreload
     toyreload.run_part(ctx, ("placement-after-reload",))
-    ctx.require("opcode-above-12", "inline-label", "data-before-text", "forward-reference-possible", "loaded-after-a-rejected-program", "data-in-a-memory-of-another-size")
+    ctx.require("opcode-above-12", "inline-label", "data-before-text", "forward-reference-possible", "loaded-after-a-rejected-program", "data-in-a-memory-of-another-size", "decorated-with-comments")
